@@ -47,17 +47,19 @@ def sinsert (x : Nat) : List Nat → List Nat
 
 /-! ## Rust integer parsing, NTP -/
 
-/-- `str::parse::<uN>()`: optional single leading `+`, then at least one ASCII digit, no overflow -/
-def parseUInt (bits : Nat) (s : String) : Option Nat :=
-  let cs := s.toList
-  let ds := match cs with
-    | '+' :: r => r
-    | _ => cs
+/-- at least one ASCII digit, nothing else, value below `2^bits` -/
+def parseDigits (bits : Nat) (ds : List Char) : Option Nat :=
   if ds.isEmpty then none else
   if ds.all Char.isDigit then
     let v := ds.foldl (fun a c => a * 10 + (c.toNat - 48)) 0
     if v < 2 ^ bits then some v else none
   else none
+
+/-- `str::parse::<uN>()`: optional single leading `+`, then at least one ASCII digit, no overflow -/
+def parseUInt (bits : Nat) (s : String) : Option Nat :=
+  match s.toList with
+  | '+' :: r => parseDigits bits r
+  | cs => parseDigits bits cs
 
 /-- seconds between 1900-01-01 and 1970-01-01 -/
 def ntpEpoch : Nat := 2208988800
